@@ -24,6 +24,11 @@ partial def normSexp : Sexp → Sexp
                else if s.startsWith "NS:" then .atom ("S:" ++ (s.drop 3).toString) else .atom s
   | .node xs => .node (xs.map normSexp)
 
+/-- `NAT` (`pd.NaT`) and `NAT64` (`np.datetime64('NaT')`) are the missing date; everything else is a value -/
+def valNOf : Sexp → Option ValN
+  | .atom "NAT" | .atom "NAT64" => some .nat
+  | s => (Val.ofSexp s).map .val
+
 abbrev St := Unit
 def init : St := ()
 def modelName : String := "cmp"
@@ -32,8 +37,8 @@ def modelName : String := "cmp"
 def handle1 (op : String) (args : List Sexp) : Option String := do
   match op, args with
   | "cmp", [a, b] =>
-      let a ← Val.ofSexp a; let b ← Val.ofSexp b
-      pure s!"ok I:{ordInt (cmp a b)}"
+      let a ← valNOf a; let b ← valNOf b
+      pure s!"ok I:{ordInt (cmpNaT a b)}"
   | "native", [a, b] =>
       match ← Val.ofSexp a, ← Val.ofSexp b with
       | .cell x, .cell y =>
